@@ -10,7 +10,14 @@ import (
 	"verifharness/internal/c03"
 	"verifharness/internal/c05"
 	"verifharness/internal/c06"
+	"verifharness/internal/c08"
 	"verifharness/internal/c13"
+	"verifharness/internal/c14"
+	"verifharness/internal/c15"
+	"verifharness/internal/c16"
+	"verifharness/internal/c17"
+	"verifharness/internal/c18"
+	"verifharness/internal/c19"
 	"verifharness/internal/common"
 	"verifharness/internal/inventory"
 )
@@ -23,13 +30,22 @@ var subs = map[string]sub{
 	"c05": c05.Run,
 	"c06": c06.Run,
 	"c13": c13.Run,
+	"c08": c08.Run,
+	"c14": c14.Run,
+	"c15": c15.Run,
+	"c16": c16.Run,
+	"c17": c17.Run,
+	"c18": c18.Run,
+	"c19": c19.Run,
 }
 
 var gens = map[string]func(outDir string) error{
-	"registry": c06.GenRegistry,
-	"stateinv": inventory.GenStateInventory,
-	"maprange": inventory.GenMapRangeSites,
-	"mutsites": inventory.GenMutationSites,
+	"registry":  c06.GenRegistry,
+	"ruletable": c15.GenRuleTable,
+	"ir":        c17.GenIR,
+	"stateinv":  inventory.GenStateInventory,
+	"maprange":  inventory.GenMapRangeSites,
+	"mutsites":  inventory.GenMutationSites,
 }
 
 func main() {
